@@ -93,7 +93,7 @@ QUICK_VERSIONS = [1, 2, 6, 7, 14, 40]
 def boundary_cases(tier, rng):
     """contents with cap-1, cap, cap+1 characters of version x level x mode"""
     combos = [(v, l, m) for v in range(1, 41) for l in range(4) for m in (1, 2, 3)]
-    if tier == "quick":
+    if tier == "quick" and not os.environ.get("VERIF_SEARCH_HARDER"):
         keep = [c for c in combos if c[0] in (1, 9, 10, 26, 27)]
         rest = [c for c in combos if c not in keep]
         rng.shuffle(rest)
